@@ -68,11 +68,13 @@ def normalize_float(number):
     >>> normalize_float('-5d4')
     '-5e4'
     '''
-    norm = re.sub(r'^([-+]?[0-9]*\.[0-9]*?)0+$', r'\1', number)
-    if norm[-1] == '.':
-        norm += '0'
     norm = re.sub(r'^([-+]?([0-9]+(\.[0-9]*)?|[0-9]*\.[0-9]+))([-+][0-9]+)$',
                   r'\1e\4',
-                  norm)
+                  number)
     norm = re.sub(r'[eEdD]', 'e', norm)
+    # remove the trailing zeros of the decimal part (also in front of an
+    # exponent: 6.40870-2 and 6.4087-2 are the same number)
+    norm = re.sub(r'^([-+]?[0-9]*\.[0-9]*?)0+(e[-+]?[0-9]+)?$', r'\1\2', norm)
+    if norm[-1] == '.':
+        norm += '0'
     return norm
